@@ -16,7 +16,9 @@ package sched
 
 import (
 	"fmt"
+	"runtime"
 	"sort"
+	"strings"
 	"sync"
 	"syscall"
 	"time"
@@ -560,6 +562,11 @@ type Result struct {
 	SwitchHash string   // the context-switch sequence, as a string of task ids
 	Stuck      []string // on deadlock: what every unfinished task was waiting for
 	Leaked     bool     // goroutines were left blocked (deadlock)
+	// Blocked, after a watchdog abort: goroutines that are blocked on a real
+	// mutex or channel inside gorm code, not parked by the scheduler ("<gorm
+	// function>: <wait reason>").  The scheduler parks tasks with no lock held,
+	// so on a correct tree the running task never waits for a real lock for long.
+	Blocked []string
 }
 
 // Run executes the task bodies under the scheduler and returns when all tasks
@@ -595,6 +602,7 @@ func (s *Sched) Run(names []string, bodies []func(), watchdog time.Duration) *Re
 	select {
 	case <-s.allDone:
 	case <-time.After(watchdog):
+		res.Blocked = blockedInGorm()
 		s.abortFromOutside("watchdog")
 	}
 	if ab, _ := s.Aborted(); ab {
@@ -629,4 +637,43 @@ func (s *Sched) collect(res *Result) {
 		i := s.stuckTask[k]
 		res.Stuck = append(res.Stuck, fmt.Sprintf("task %d (%s) waits for %s", i, s.names[i], s.stuckWhat[k]))
 	}
+}
+
+// blockedInGorm lists the goroutines that wait on a real lock or channel with a
+// gorm frame on their stack and are not parked by the scheduler.
+func blockedInGorm() []string {
+	buf := make([]byte, 4<<20)
+	buf = buf[:runtime.Stack(buf, true)]
+	var out []string
+	for _, g := range strings.Split(string(buf), "\n\n") {
+		lines := strings.Split(g, "\n")
+		if len(lines) < 2 || !strings.HasPrefix(lines[0], "goroutine ") {
+			continue
+		}
+		reason := ""
+		if i, j := strings.Index(lines[0], "["), strings.Index(lines[0], "]"); i >= 0 && j > i {
+			reason = strings.SplitN(lines[0][i+1:j], ",", 2)[0]
+		}
+		switch reason {
+		case "sync.Mutex.Lock", "sync.RWMutex.Lock", "sync.RWMutex.RLock", "semacquire", "chan receive", "chan send":
+		default:
+			continue
+		}
+		if strings.Contains(g, "verif/sim/sched.park") || !strings.Contains(g, "gorm.io/gorm") {
+			continue
+		}
+		fn := ""
+		for _, l := range lines[1:] {
+			if strings.HasPrefix(l, "gorm.io/gorm") {
+				fn = l
+				if k := strings.LastIndex(fn, "("); k > 0 {
+					fn = fn[:k]
+				}
+				break
+			}
+		}
+		out = append(out, fn+": "+reason)
+	}
+	sort.Strings(out)
+	return out
 }
